@@ -1,4 +1,4 @@
-import LunarVerif.Proofs.C01
+import LunarVerif.Proofs.C01Flat
 /-!
 # C01 — Fixed-window quotas never admit more than their limit per window
 
@@ -50,5 +50,138 @@ example : tally (2 * nsPerSec) (0, 0) (Sys.run exCfg (Sys.init (10 * nsPerSec + 
     the child and is still in flight towards the parent's `Allowed` when the schedule ends. -/
 example : tally (2 * nsPerSec) (1, 0) (Sys.run exCfg (Sys.init (10 * nsPerSec + 5)) exSched).log
     = [⟨12, 1, 1⟩, ⟨10, 2, 2⟩] := by decide
+
+/-- (ii) Spacing: in every schedule the reconstructed windows of a level start at least one window
+    length apart (window lengths are whole seconds, as the configuration format makes them). -/
+theorem windows_spaced (cfg : Cfg) (t0 : Nat) (sched : List Act) (k : Key) (win : Nat)
+    (hw : win % nsPerSec = 0) :
+    spacedBy (win / nsPerSec) (tally win k (Sys.run cfg (Sys.init t0) sched).log) = true := by
+  have hs := run_sorted cfg sched (Sys.init t0) trivial (fun _ _ _ _ h => by simp [Sys.init] at h)
+  exact (tally_spaced win k hw _ _ hs.1 hs.2).1
+
+/-- The newest window of `exSched`'s parent level starts exactly one window length (2 s) after the first. -/
+example : windowsOf (2 * nsPerSec) (0, 0) (Sys.run exCfg (Sys.init (10 * nsPerSec + 5)) exSched).log = [10, 12] := by
+  decide
+
+/-! ## API histories: the predicate the judge evaluates holds of every run of the model
+
+`observe cfg St.init ops` is the history of the model answering the API calls `ops` one at a time
+(`Inc`, `Allowed`, `Dec`, limiter call — generated interleavings of several requests' calls).
+`regular` = every request id arrives once. -/
+
+theorem init_fresh (ops : List Op) : ∀ r ∈ opArr ops, ∀ k, (St.init.at k).memo.lookup r = none := by
+  intro r _ k; rfl
+
+/-- (i) at the API layer: no reconstructed window of any quota of any chain lets more than `max` through. -/
+theorem api_bound (cfg : Cfg) (hwf : wellFormed cfg = true) (ops : List Op)
+    (hreg : regular (observe cfg St.init ops) = true) :
+    boundHolds cfg (observe cfg St.init ops) = true := by
+  unfold regular at hreg
+  rw [arrivals_observe] at hreg
+  have := (api_rel cfg (wellFormed_parents hwf) ops St.init SSt.init (LevelsRel.init cfg) (init_fresh ops) hreg).1
+  exact boundHolds_of_rel cfg _ _ this
+
+/-- (ii) at the API layer, for *any* history with non-decreasing instants (the implementation's too). -/
+theorem api_windows_spaced (cfg : Cfg) (hwf : wellFormed cfg = true) (h : History) (hm : monotone h = true) :
+    spacedHolds cfg h = true :=
+  spacedHolds_of cfg (fun i c hi => (wellFormed_at hwf i c hi).2.2.1) h hm
+
+/-- (iii, weak reading) A refused limiter call met, in its chain, a quota whose current window had
+    already been *charged* `max` arrivals. -/
+theorem seq_exact_charged (cfg : Cfg) (hwf : wellFormed cfg = true) (ops : List Op)
+    (hreg : regular (observe cfg St.init ops) = true) :
+    exactCharged cfg (observe cfg St.init ops) = true := by
+  unfold regular at hreg
+  rw [arrivals_observe] at hreg
+  have := (api_rel cfg (wellFormed_parents hwf) ops St.init SSt.init (LevelsRel.init cfg) (init_fresh ops) hreg).2
+  simp [exactCharged, this]
+
+/-- (iii, strict reading) holds for quotas without parent: handled one at a time, a request is
+    refused only if its quota has already let `max` requests through in the current window. -/
+theorem seq_exact_flat (cfg : Cfg) (hwf : wellFormed cfg = true)
+    (hflat : ∀ (i : Nat) (c : QuotaCfg), cfg.quotas[i]? = some c → c.parent = none) (ops : List Op)
+    (hreg : regular (observe cfg St.init ops) = true) :
+    exactStrict cfg (observe cfg St.init ops) = true := by
+  unfold exactStrict
+  cases hseq : sequential (observe cfg St.init ops) with
+  | false => rfl
+  | true =>
+    simp only [Bool.not_true, Bool.false_or]
+    unfold regular at hreg
+    rw [arrivals_observe] at hreg
+    apply flat_exact cfg hflat (wellFormed_parents hwf) ops St.init SSt.init (LevelsRel.init cfg) (init_fresh ops) hreg
+    · intro o ho
+      have hall : ∀ (ops : List Op) (st : St), sequential (observe cfg st ops) = true → ∀ o ∈ ops, o.kind = .req := by
+        intro ops
+        induction ops with
+        | nil => intro _ _ o ho; simp at ho
+        | cons x xs ih =>
+          intro st hs o ho
+          simp only [sequential, observe, List.all_cons, Bool.and_eq_true, beq_iff_eq] at hs
+          simp only [List.mem_cons] at ho
+          rcases ho with ho | ho
+          · subst ho; exact hs.1
+          · exact ih _ (by simpa [sequential] using hs.2) o ho
+      exact hall ops St.init hseq o ho
+    · intro k w hw; simp [SSt.at_init] at hw
+
+/-- The whole judge predicate, with the class of finding F01a excluded. -/
+theorem c01_holds_partial (cfg : Cfg) (hwf : wellFormed cfg = true) (ops : List Op)
+    (hnot : f01a cfg (observe cfg St.init ops) = false) :
+    holds cfg (observe cfg St.init ops) = true := by
+  unfold holds
+  cases hreg : regular (observe cfg St.init ops) with
+  | false => rfl
+  | true =>
+    cases hm : monotone (observe cfg St.init ops) with
+    | false => rfl
+    | true =>
+      have hb := api_bound cfg hwf ops hreg
+      have hs := api_windows_spaced cfg hwf _ hm
+      have hc := seq_exact_charged cfg hwf ops hreg
+      simp only [Bool.and_self, Bool.not_true, Bool.false_or, hb, hs, Bool.true_and]
+      unfold exactStrict
+      unfold exactCharged at hc
+      unfold f01a at hnot
+      simp only [hreg, hm, Bool.true_and] at hnot
+      cases hseq : sequential (observe cfg St.init ops) with
+      | false => rfl
+      | true =>
+        simp only [hseq, Bool.not_true, Bool.false_or, Bool.true_and] at hc hnot ⊢
+        simp only [hc, Bool.and_true, Bool.not_eq_false'] at hnot
+        exact hnot
+
+/-! ### F01a: the strict reading fails for hierarchies -/
+
+/-- Child quota 1: 5 per hour; parent quota 0: 2 per minute. -/
+def f01aCfg : Cfg := ⟨[⟨none, 2, 60 * nsPerSec, none⟩, ⟨some 0, 5, 3600 * nsPerSec, none⟩]⟩
+
+/-- Five requests in the first minute (two pass, three are refused by the parent but charged to the
+    child), one request at the start of the second minute. -/
+def f01aOps : List Op :=
+  [⟨.req, 1, 1, 1700000000250000000, []⟩, ⟨.req, 1, 2, 1700000001000000000, []⟩,
+   ⟨.req, 1, 3, 1700000002000000000, []⟩, ⟨.req, 1, 4, 1700000003000000000, []⟩,
+   ⟨.req, 1, 5, 1700000004000000000, []⟩, ⟨.req, 1, 6, 1700000060000000000, []⟩]
+
+/-- The model's answers: pass, pass, refuse ×3, and the last request is refused too … -/
+example : (observe f01aCfg St.init f01aOps).map (·.ans) =
+    [some true, some true, some false, some false, some false, some false] := by decide
+
+/-- … although at that instant the parent's window is new (0 let through, max 2) and the child has
+    let only 2 of its 5 through: the strict reading of exactness fails on a one-at-a-time history of a
+    well-formed hierarchy (finding F01a; same witness as `corpus/C01/F01a.ops`). -/
+theorem seq_exact_hier_violation_witness :
+    ∃ (cfg : Cfg) (ops : List Op), wellFormed cfg = true ∧
+      regular (observe cfg St.init ops) = true ∧ monotone (observe cfg St.init ops) = true ∧
+      sequential (observe cfg St.init ops) = true ∧
+      ¬ (exactStrict cfg (observe cfg St.init ops) = true) ∧
+      f01a cfg (observe cfg St.init ops) = true :=
+  ⟨f01aCfg, f01aOps, by decide, by decide, by decide, by decide, by decide, by decide⟩
+
+/-- Non-vacuity of `seq_exact_flat` / `api_bound`: a flat quota (max 2 per 2 s) refuses the third
+    request of a window and lets the next one through exactly at `start + window`. -/
+example : (observe ⟨[⟨none, 2, 2 * nsPerSec, none⟩]⟩ St.init
+    [⟨.req, 0, 1, 10 * nsPerSec + 7, []⟩, ⟨.req, 0, 2, 11 * nsPerSec, []⟩, ⟨.req, 0, 3, 12 * nsPerSec - 1, []⟩,
+     ⟨.req, 0, 4, 12 * nsPerSec, []⟩]).map (·.ans) = [some true, some true, some false, some true] := by decide
 
 end LunarVerif.C01
